@@ -131,7 +131,7 @@ PROPS = {
         'level_text': 'Proof over R about the model of check_intersection (after the fix deriving the shell count from the cell heights): if the check finds nothing (a score is reported) then NO two distinct lattice images of symmetry copies properly meet, for all copies i,j and all lattice vectors however far (prefilter soundness from orthogonal placements and the enclosing radius, |uA+vB| >= |u| a sin t, shells*min(a,b)*sin t >= 2R for the generated shell rule, translation invariance and symmetry of the pair tests, completeness of the pair tests from C12). Discs: the open disc-unions of distinct images are disjoint. Polygons: edges that really share a point and are not near-parallel are excluded; overlapping interiors of convex copies force such a pair of edges (C12Convex/C12Orient/C12Polygon) up to the explicit angle and not-nested hypotheses. check_intersection, score, positions and periodic_images are regenerated from the source and proved equal to the model (TiePacked, TieSite, TieImages).',
         'level_note': 'Trusted: Lean kernel + 3 axioms; model of packed.rs/cell.rs/site.rs tied by bit-exact state/optc families; shell rule and prefilter constants regenerated by the translator and pinned by a decidable obligation; f64 rounding outside the theorem.',
         'technique': 'Lean 4 geometric proof over R + source-to-Lean translation of check_intersection / positions / periodic_images with tie theorems + translator-pinned constants + bit-exact differential correspondence',
-        'theorems': ['Proofs.C01', 'Proofs.C12Convex', 'Proofs.TieDisc', 'Proofs.TieLine', 'Proofs.TieHardShape', 'Proofs.TiePacked', 'Proofs.TieImages', 'Proofs.TieSite', 'Proofs.C12Orient', 'Proofs.C12Polygon', 'Proofs.C12Placed', 'Proofs.C01Polygon', 'Proofs.SrcC01'],
+        'theorems': ['Proofs.C01', 'Proofs.C12Convex', 'Proofs.TieDisc', 'Proofs.TieLine', 'Proofs.TieHardShape', 'Proofs.TiePacked', 'Proofs.TieImages', 'Proofs.TieSite', 'Proofs.C12Orient', 'Proofs.C12Polygon', 'Proofs.C12Placed', 'Proofs.C01Polygon', 'Proofs.SrcC01', 'Proofs.TieShapeDispatch'],
         'families': [('state_hard', 2500, 40000), ('optc_hard', 200, 4000), ('pair_hard', 1500, 20000)],
         'search': (15, 400),
         'rule': 'state: 7 groups x polygons/radial/circle/trimers x cells over the optimiser box (dense and dilute) incl. bound-clamped coordinates; non-trivial = any ok reply; search: exhaustive lattice-overlap oracle (shells from cell heights + margin, SAT / disc distances) on adversarial dense/skewed/elongated states, on far-overlap-only states found by geometric rejection sampling, and on states returned by the optimiser',
@@ -142,7 +142,7 @@ PROPS = {
         'level_text': 'Proof over R: score = area*N/cellArea with cellArea = |AxB| (C14); LineShape area equals the shoelace area of the closed outline from_radial builds (n>=3, r>=0), (n/2) sin(2pi/n) for polygon n; disc-union area = measure of the union minus the triple intersection for any finite measure realising the disc and lens values (exact when no point lies in all three discs, an under-count otherwise: known finding F10). The lens value is proved for Lebesgue measure and axis-aligned discs in all three regimes (C02Lens.volume_inter_eq_circleOverlap, by integration). area / score / cell area are regenerated from the source and proved equal to the model (TieDisc, TieHardShape, TieCell, TiePacked). Partial: score <= 1 as the measure statement covered_le_cell with the tiling hypothesis explicit; the rigid motion reducing a general pair of discs to an axis-aligned one is not formalised.',
         'level_note': 'Trusted: lens-area closed form and "shoelace = area" as geometry; Lean kernel + 3 axioms; Mathlib measure theory; area/score functions tied by bit-exact pair/state families.',
         'technique': 'Lean 4 proof (trigonometric identities, inclusion-exclusion and integration in measure theory) + source-to-Lean translation with tie theorems + differential correspondence + exact-area oracle',
-        'theorems': ['Proofs.C02', 'Proofs.TieDisc', 'Proofs.TieCell', 'Proofs.TieHardShape', 'Proofs.TiePacked', 'Proofs.C02Lens', 'Proofs.SrcC02'],
+        'theorems': ['Proofs.C02', 'Proofs.TieDisc', 'Proofs.TieCell', 'Proofs.TieHardShape', 'Proofs.TiePacked', 'Proofs.C02Lens', 'Proofs.SrcC02', 'Proofs.TieShapeDispatch'],
         'families': [('pair_hard', 2500, 40000), ('state_hard', 1500, 20000), ('cell', 800, 10000)],
         'search': (12, 300),
         'rule': 'pair: area/radius/items of polygons 3..69 sides, radial polygons, circle, trimers over the CLI parameter space; search: shoelace oracle, union-of-discs area by tanh-sinh scanline integration stratified by overlap topology, score = N*area/|AxB| in (0,1] on random and optimised states',
@@ -153,7 +153,7 @@ PROPS = {
         'level_text': 'Proof over R about the model of PotentialState::score (after the weight fix): score = -(in-cell pairs once + 1/2 * ordered image pairs over 3 shells)/N with weight and shell count regenerated from the source; for a symmetric pair energy (all particles alike, C13) this is -(1/N)*(1/2)*sum_i sum over all other images (j,T) in the box of E(i,j+T): every pair of distinct images counted once per molecule, independent of whether a neighbour is an in-cell copy or a periodic image; for cut potentials every term outside the box of k shells is exactly 0 when k*min(a,b)*sin t >= cutoff + 2*extent, so the box sum equals every larger box sum. Partial: uncut potential = the truncated sum (tail not bounded); unlike particles (F11b) and images beyond shell 3 (F7) are known findings; invariance under re-description is covered by the lattice-sum and origin-shift oracles.',
         'level_note': 'Trusted: Lean kernel + 3 axioms; score model tied by bit-exact state/optc families; constants (3 shells, weight 1/2, normalisation) regenerated by the translator and pinned.',
         'technique': 'Lean 4 proof over R (finite lattice sums) + source-to-Lean translation of the function bodies with tie theorems + translator-pinned constants + bit-exact differential correspondence + independent lattice-sum oracle',
-        'theorems': ['Proofs.C03', 'Proofs.TieLJ', 'Proofs.TieLJShape', 'Proofs.TiePotential', 'Proofs.TieImages', 'Proofs.TieSite', 'Proofs.SrcC03'],
+        'theorems': ['Proofs.C03', 'Proofs.TieLJ', 'Proofs.TieLJShape', 'Proofs.TiePotential', 'Proofs.TieImages', 'Proofs.TieSite', 'Proofs.SrcC03', 'Proofs.TieShapeDispatch'],
         'families': [('state_lj', 2500, 40000), ('pair_lj', 1500, 20000), ('optc_lj', 150, 3000)],
         'search': (15, 400),
         'rule': 'state: LJ circle and trimers x 7 groups x cells incl. flat/skewed; search: independent closed-form lattice sum (code convention and each-pair-once convention, exhaustive shells for cut potentials) against score(), and origin shifts by symmetry-equivalent half lattice vectors (tolerance for the uncut potential = truncation error measured by the oracle)',
